@@ -26,6 +26,9 @@ configuration — `server_chain.smart_contract.multisig: false` — so the harne
                                 wallet whose signer keys are unrelated to its key the transfer executes with an invalid signature
                                 (`unrelated_keys_execute_with_invalid_signature`, kernel-evaluated witness; recorded finding, same
                                 root as C04:invalid-signed-transfer-applied).
+* `expired_proposal_cannot_execute`  a record whose expiry is ≤ the BLOCK's creation date is never completed by a vote: the vote
+                                fails (`expired`) whatever creation date the voter put on the transaction (`Call.date` is not read);
+                                after the record was pruned the vote opens a NEW proposal with no entries.
 * `vote_balances`               through the engine: a successful vote transaction moves the fee and, iff it executes, exactly
                                 the transfer amount from the wallet to the recipient.
 -/
@@ -257,6 +260,22 @@ theorem repeat_votes_dont_count (hm : Xfer → F) (s : MSt F) (sender : Id) (now
     · rw [ho] at hd; cases hd
     · rw [ho] at hd; cases hd
 
+/-- **expired_proposal_cannot_execute.** If the record stored for (wallet, name) — as it is after the incremental
+pruning of this very vote — has `expires ≤ now` (the block's creation date), the vote is a chargeable failure:
+nothing is appended, nothing executes. The transaction's own creation date is not an argument of `vote` at all. -/
+theorem expired_proposal_cannot_execute (hm : Xfer → F) (s : MSt F) (sender : Id) (now : Int) (txn : Nat)
+    (name : Nat) (t : Xfer) (sig : SigTok F) (tb : Bool) (p : Proposal F)
+    (hp : findProp (pruneHead now s).props (t.src, name) = some p) (hexp : p.expires ≤ now) :
+    ∀ o, vote hm s sender now txn (.vote name t sig tb) ≠ .ok o := by
+  intro o h
+  obtain ⟨name', t', sig', s1, p', hchk, h2, _, _⟩ := vote_ok hm s sender now txn _ o h
+  obtain ⟨hv, _⟩ := voteChecks_ok _ name' t' sig' hchk
+  injection hv with hn ht _ _
+  subst hn ht
+  rcases findOrCreate_ok _ s1 now name t p' h2 with ⟨hf, hlt, _⟩ | ⟨hf, _, _⟩
+  · rw [hp] at hf; injection hf with hf; subst hf; omega
+  · rw [hp] at hf; cases hf
+
 /-! ## through the engine -/
 
 theorem settle_nil_get' (feeOn : Bool) (a a' : Accts) (t : Txn) (h : settle feeOn a t [] [] = some a') (i : Id) :
@@ -473,15 +492,17 @@ def tA : Xfer := ⟨2, 6, 300⟩
 def tB : Xfer := ⟨8, 6, 300⟩
 
 /-- register both wallets; two signers vote on each proposal (with a repeated and a forged vote in between). -/
+def cl (sender : Id) (nonce : Int) : Call := { sender := sender, value := 0, fee := 1, nonce := nonce }
+
 def wOps : List (Op Fr) :=
-  [.register ⟨2, 0, 1, 1⟩ (some wProper), .register ⟨8, 0, 1, 1⟩ (some wUnrelated),
-   .vote ⟨3, 0, 1, 1⟩ 1000 1 (.vote 0 tA (.pt (sign 57 (wHm tA))) false),
-   .vote ⟨3, 0, 1, 2⟩ 1001 2 (.vote 0 tA (.pt (sign 57 (wHm tA))) false),        -- repeat: does not count
-   .vote ⟨4, 0, 1, 1⟩ 1002 3 (.vote 0 tA (.pt (sign 99 (wHm tA))) false),        -- forged: refused
-   .vote ⟨5, 0, 1, 1⟩ 1003 4 (.vote 0 tA (.pt (sign 71 (wHm tA))) false),        -- second valid vote: executes
-   .vote ⟨4, 0, 1, 2⟩ 1004 5 (.vote 0 tA (.pt (sign 64 (wHm tA))) false),        -- after execution: nothing more
-   .vote ⟨9, 0, 1, 1⟩ 1005 6 (.vote 0 tB (.pt (sign 11 (wHm tB))) false),
-   .vote ⟨10, 0, 1, 1⟩ 1006 7 (.vote 0 tB (.pt (sign 12 (wHm tB))) false)]
+  [.register (cl 2 1) (some wProper), .register (cl 8 1) (some wUnrelated),
+   .vote (cl 3 1) 1000 1 (.vote 0 tA (.pt (sign 57 (wHm tA))) false),
+   .vote (cl 3 2) 1001 2 (.vote 0 tA (.pt (sign 57 (wHm tA))) false),        -- repeat: does not count
+   .vote (cl 4 1) 1002 3 (.vote 0 tA (.pt (sign 99 (wHm tA))) false),        -- forged: refused
+   .vote (cl 5 1) 1003 4 (.vote 0 tA (.pt (sign 71 (wHm tA))) false),        -- second valid vote: executes
+   .vote (cl 4 2) 1004 5 (.vote 0 tA (.pt (sign 64 (wHm tA))) false),        -- after execution: nothing more
+   .vote (cl 9 1) 1005 6 (.vote 0 tB (.pt (sign 11 (wHm tB))) false),
+   .vote (cl 10 1) 1006 7 (.vote 0 tB (.pt (sign 12 (wHm tB))) false)]
 
 def sigOk (st : MSt Fr) (r : Ref) : Option Bool :=
   match findProp st.props r, findWallet st.wallets r.1 with
